@@ -107,16 +107,16 @@ Fixpoint server_run (s : server) (ops : list sop) : server * list sout :=
   end.
 
 (* ---- inbound admission (handleInboundConn + peer.run's inConnCh case) ---- *)
-Inductive admit := AdmitTo (a : addr) | Refuse.
+Inductive admission := HandTo (a : addr) | Refuse.
 (* src/dst are the hosts of conn.RemoteAddr()/conn.LocalAddr(); dst_ok is false when the local
    address string does not split/parse *)
-Definition server_admit (s : server) (src dst : addr) (dst_ok : bool) : admit :=
+Definition server_accepts (s : server) (src dst : addr) (dst_ok : bool) : admission :=
   match lookup src (s_peers s) with
   | None => Refuse
   | Some (c, o) =>
       if is_valid (o_local o) then
-        if dst_ok && addr_eqb (o_local o) dst then AdmitTo src else Refuse
-      else AdmitTo src
+        if dst_ok && addr_eqb (o_local o) dst then HandTo src else Refuse
+      else HandTo src
   end.
 
 (* ---- peer.updateStartupDelay ---- *)
